@@ -348,7 +348,7 @@ func runC16(r *core.Run) {
 	r.Rule("generated dumps and race reports (non-ASCII package and file names, 1..40 buckets, elided stacks, sleep ranges, locks, creators) rendered by the real pp binary under {base, -full-path, -rel-path} x {default, -aggressive}; the output is cut into blocks and compared with the buckets/goroutines the library yields for the same bytes: header pieces, one line per frame, the file:line and function columns at the same rune offsets on every frame line of the output, '(...)' after elided stacks; " +
 		"-force-color output minus ESC[..m must equal the -no-color output; for regexps drawn from the headers the -f and -m outputs must split the unfiltered blocks exactly in two, order preserved. distinct by hash(input, flags); non-trivial = >= 2 blocks")
 	r.Assume("bucket membership and order are taken from the library (C04/C05/C13 decide those); Args.String() is the textual form of arguments")
-	n := r.N(500, 6000)
+	n := r.N(2500, 10000)
 	core.Parallel(n, workers(), func(i int) {
 		c := genC16(r, i)
 		c16Eval(r, c)
